@@ -23,7 +23,7 @@ package common
 
 // leB(v): the abstract byte string of that 32-byte little-endian form (defined by the bytes it consists of)
 //@ spec fn leB(v int) Bytes
-//@ axiom leBdef(a []byte, v int) : forall(k, 0, 32, a[k] == ite(k < bigLen(v), bigBytes(v)[bigLen(v) - 1 - k], 0)) ==> bytesOf(a, 32) == leB(v) @trigger bytesOf(a, 32), leB(v)
+//@ axiom leBdef(a []byte, v int) : forall(k, 0, 32, a[k] == ite(k < bigLen(v), bigBytes(v)[bigLen(v) - 1 - k], 0)) ==> bytesOf(a, 32) == leB(v) @trigger bytesOf(a, 32), leB(v) @only BigIntToLittleEndianBytes
 
 //@ func Uint32ToBytes
 //@   props C03 C10
@@ -34,3 +34,8 @@ package common
 //@   props C10
 //@   definitional
 //@   ensures[be64] len(result) == 8 && off(result) == 0 && fresh(ref(result)) && bytesOf(seq(result), 8) == beNB(num, 8)
+
+//@ func Uint64ToLittleEndianBytes
+//@   props C10
+//@   definitional
+//@   ensures[le64] len(result) == 8 && off(result) == 0 && fresh(ref(result)) && bytesOf(seq(result), 8) == leNB(num, 8)
